@@ -205,6 +205,15 @@ func runC07(cfg Cfg, keys []string, ops []Op, res *TaskResult) *Violation {
 
 var c07Nesting = 2
 
+// the writers that race the Merge in the crash-during-race level
+var c07RaceWriters = []Op{
+	{K: "put", Key: "a", VC: "S"},
+	{K: "del", Key: "a"},
+	{K: "batch", Sub: []Op{{K: "put", Key: "a", VC: "S"}, {K: "del", Key: "b"}}},
+	// flushed in two pieces at DataFileSize 130: the first piece reaches the log (and the index) before the seal exists
+	{K: "batch", Sub: []Op{{K: "put", Key: "a", VC: "L"}, {K: "put", Key: "b", VC: "L"}, {K: "put", Key: "a", VC: "S"}}},
+}
+
 // ---- graceful shutdown while Merge is running ("an unfinished merge is ignored") ----------------------------
 // Merge holds no lock while it scans; Close may run in the middle of it. Whatever the interleaving, the merge
 // either finished (and is adopted once) or must be ignored: the next Open exposes the acknowledged mapping.
@@ -378,6 +387,17 @@ func init() {
 					tasks = append(tasks, Task{Level: "close-during-merge", Name: "close during merge " + c.String() + " " + name, Fn: c07CloseDuringMerge(c, init, pb)})
 				}
 			}
+			rpb := 4
+			if tier == "thorough" {
+				rpb = -1
+			}
+			for _, c := range []Cfg{defaultCfg} {
+				for _, name := range sortedKeys(c08MergeInits) {
+					for _, wr := range c07RaceWriters {
+						tasks = append(tasks, Task{Level: "crash-during-merge-race", Name: fmt.Sprintf("crash during merge race %s %s %s", c, name, wr), Fn: c07CrashDuringRace(c, name, c08MergeInits[name], wr, rpb, true)})
+					}
+				}
+			}
 			return tasks
 		},
 		Bounds: func(tier string) map[string]any {
@@ -387,6 +407,14 @@ func init() {
 			return map[string]any{"history_length": "1..4", "deviation_bound": 2, "crash_nesting": 3, "configs": 2, "scan_orders": 2}
 		},
 		Replay: func(raw json.RawMessage) {
+			var e struct {
+				Engine string `json:"engine"`
+			}
+			json.Unmarshal(raw, &e)
+			if e.Engine == "sched-crash" {
+				replayRaceCrash(raw)
+				return
+			}
 			var r c07Replay
 			json.Unmarshal(raw, &r)
 			// the recorded ops include the Merge / restart tail: strip it and re-judge the history
@@ -402,4 +430,245 @@ func init() {
 			fmt.Println("no violation on this tree")
 		},
 	})
+}
+
+// ---- process death while Merge races a writer (schedules x crash points) ------------------------------------
+// Merge scans without the lock; a writer (Put, Delete, a batch, a batch large enough to be flushed in pieces) runs
+// in the middle of it. For EVERY schedule up to the preemption bound a crash image is taken after EVERY I/O call of
+// either thread; each distinct image is opened with the real Open: it must expose the mapping before the writer's
+// call or the one after it (only the latter once the call has returned) - the merge never changes any value.
+
+type raceCrashReplay struct {
+	Engine   string `json:"engine"`
+	Prop     string `json:"property"`
+	Cfg      Cfg    `json:"cfg"`
+	Init     []Op   `json:"init"`
+	Writer   Op     `json:"writer"`
+	Schedule []int8 `json:"schedule"`
+	Event    int    `json:"event"`
+	Cut      string `json:"cut,omitempty"`
+	Text     string `json:"text"`
+}
+
+type raceSnap struct {
+	snap       *Snap
+	ev         string
+	writerDone bool
+	idx        int
+	synced     map[string]int64
+}
+
+// runRaceCrash executes one schedule of Merge || writer and returns the crash images, the two admissible mappings
+// and the scheduler's result. The initial history is made durable by Sync() before the race begins.
+func runRaceCrash(cfg Cfg, init []Op, writer Op, prefix []int8) (ex *ExecResult, snaps []raceSnap, pre, post map[string]string) {
+	beginExecution()
+	w := NewWorld(cfg, keysAB)
+	defer w.Destroy()
+	ex = &ExecResult{}
+	rec := newCrashRecorder(w.Root)
+	racing, writerDone := false, false
+	take := func(ev string) {
+		syn := make(map[string]int64, len(rec.synced))
+		for k, v := range rec.synced {
+			syn[k] = v
+		}
+		snaps = append(snaps, raceSnap{snap: takeSnap(w.Root), ev: ev, writerDone: writerDone, idx: len(snaps), synced: syn})
+	}
+	iorec.After = func(ev *iorec.Event) {
+		rec.after(ev)
+		if racing {
+			take(fmt.Sprintf("%s %s", ev.Op, rec.rel(ev.Path)))
+		}
+	}
+	defer func() { iorec.After = nil }()
+	if err := w.Open(); err != nil {
+		ex.OpenErr = panicDetail(err)
+		return
+	}
+	for _, op := range append(append([]Op{}, init...), Op{K: "sync"}) {
+		if ar := w.Apply(op); ar.Err != nil || w.Dead {
+			ex.OpenErr = "init failed"
+			return
+		}
+	}
+	pre = copyModel(w.Model)
+	db := w.DB
+	var mergeErr string
+	var war ApplyResult
+	racing = true
+	ex.Sched = sched.Run(prefix, func() { mergeErr = errClass(db.Merge()) }, func() {
+		war = w.Apply(writer)
+		writerDone = true
+	})
+	racing = false
+	sched.SetMode(sched.ModeSeq)
+	post = copyModel(w.Model)
+	ex.Calls = []CallRec{{Thread: 0, Call: Call{K: "merge"}, Err: mergeErr}, {Thread: 1, Call: Call{K: writer.String()}, Err: errClass(war.Err)}}
+	if ex.Sched.Abort != sched.AbortNone {
+		w.Dead = true
+		return
+	}
+	for _, p := range ex.Sched.Panics {
+		if p != "" {
+			w.Dead = true
+			return
+		}
+	}
+	// the final state (both returned) is one more crash point
+	take("both calls returned")
+	return
+}
+
+func raceAdmissible(d *Dump, pre, post map[string]string, alsoPre bool) bool {
+	if d == nil || d.Err != "" {
+		return false
+	}
+	if sameMap(d.KV, post) && d.KeyNum == len(post) {
+		return true
+	}
+	return alsoPre && sameMap(d.KV, pre) && d.KeyNum == len(pre)
+}
+
+// judgeRaceSnap: process death at this instant (cut == ""), or the power-loss image s.snap already cut.
+func judgeRaceSnap(cfg Cfg, s raceSnap, img *Snap, power bool, pre, post map[string]string, res *TaskResult) string {
+	r := recoverImage(img, cfg, keysAB, res)
+	if r.OpenErr != "" {
+		return "Open failed: " + r.OpenErr
+	}
+	// process death: the writer's mutation may be missing only while its call has not returned; power loss: the
+	// writer never synced, so the mapping before its call stays admissible
+	alsoPre := power || !s.writerDone
+	if !raceAdmissible(r.Dump, pre, post, alsoPre) {
+		allowed := "after the writer's call " + modelString(post)
+		if alsoPre {
+			allowed = "before the writer's call " + modelString(pre) + " or " + allowed
+		}
+		return fmt.Sprintf("recovered %s; admissible: %s", r.Dump, allowed)
+	}
+	if r.Second != "" {
+		return r.Second
+	}
+	return ""
+}
+
+func c07CrashDuringRace(cfg Cfg, initName string, init []Op, writer Op, pb int, power bool) func(res *TaskResult) {
+	return func(res *TaskResult) {
+		seen := map[uint64]bool{}
+		text := fmt.Sprintf("%s init=%s[%s] T0[merge] || T1[%s], crash after every I/O call", cfg, initName, traceString(init), writer)
+		n, complete := exploreSchedules(func(prefix []int8) *ExecResult {
+			ex, snaps, pre, post := runRaceCrash(cfg, init, writer, prefix)
+			if ex.Sched == nil || ex.Sched.Abort != sched.AbortNone || ex.OpenErr != "" {
+				return ex
+			}
+			for _, p := range ex.Sched.Panics {
+				if p != "" {
+					return ex
+				}
+			}
+			if ex.Calls[1].Err != "nil" {
+				res.count("writer_failed_not_judged", 1)
+				return ex
+			}
+			report := func(s raceSnap, img *Snap, cut, bad string) {
+				kind := "process death"
+				if cut != "" {
+					kind = "power loss, " + cut
+				}
+				v := Violation{Prop: "C07", Clause: "crash-during-merge-race", Sig: "crash-during-merge-race:" + writer.K + ":" + firstWord(kind),
+					Detail: fmt.Sprintf("%s\nschedule: %s\ncrash point: after I/O call #%d (%s), writer returned: %v, %s\nimage: %s\n%s", text, describeSchedule(ex), s.idx, s.ev, s.writerDone, kind, img.listing(), bad),
+					Replay: mustJSON(raceCrashReplay{Engine: "sched-crash", Prop: "C07", Cfg: cfg, Init: init, Writer: writer, Schedule: append([]int8{}, ex.Sched.Choices...), Event: s.idx, Cut: cut, Text: text})}
+				if !isKnown(&v) {
+					ex.OpenErr = "violation"
+				}
+				addViolation(res, &v)
+			}
+			for _, s := range snaps {
+				h := s.snap.hash()
+				if s.writerDone {
+					h ^= 0x9e3779b97f4a7c15
+				}
+				if !seen[h] {
+					seen[h] = true
+					res.States = append(res.States, h)
+					if bad := judgeRaceSnap(cfg, s, s.snap, false, pre, post, res); bad != "" {
+						report(s, s.snap, "", bad)
+						break
+					}
+				}
+				if !power {
+					continue
+				}
+				stop := false
+				cutImages(&crashPoint{Snap: s.snap, Synced: s.synced}, pairCutCap, nil, func(img *Snap, desc string) bool {
+					hc := img.hash() ^ 0x5851f42d4c957f2d
+					if seen[hc] {
+						return true
+					}
+					seen[hc] = true
+					res.count("cut_images", 1)
+					if bad := judgeRaceSnap(cfg, s, img, true, pre, post, res); bad != "" {
+						report(s, img, desc, bad)
+						stop = true
+						return false
+					}
+					return true
+				})
+				if stop {
+					break
+				}
+			}
+			return ex
+		}, pb, 200000, func(ex *ExecResult, prefix []int8) bool {
+			res.Execs++
+			if ex.Sched == nil {
+				return true
+			}
+			res.Transitions += ex.Sched.Points
+			switch {
+			case ex.Sched.Abort == sched.AbortDiv:
+				res.Err = "replay divergence in Merge || writer"
+				return false
+			case ex.Sched.Abort != sched.AbortNone:
+				res.count("aborted_schedules_not_judged_here", 1) // deadlocks are C09's
+			}
+			return ex.OpenErr != "violation"
+		})
+		if !complete {
+			res.Partial = true
+		}
+		if len(seen) > 2 {
+			res.Nontrivial++
+		}
+		res.count("max:schedules_per_scenario", int64(n))
+		res.Samples = append(res.Samples, fmt.Sprintf("%s: %d schedules, %d distinct crash images", text, n, len(seen)))
+	}
+}
+
+func replayRaceCrash(raw json.RawMessage) {
+	var r raceCrashReplay
+	json.Unmarshal(raw, &r)
+	ex, snaps, pre, post := runRaceCrash(r.Cfg, r.Init, r.Writer, r.Schedule)
+	if ex.Sched == nil || r.Event >= len(snaps) {
+		fmt.Println("the recorded schedule does not reach the recorded crash point on this tree")
+		return
+	}
+	var res TaskResult
+	s := snaps[r.Event]
+	bad := ""
+	if r.Cut == "" {
+		bad = judgeRaceSnap(r.Cfg, s, s.snap, false, pre, post, &res)
+	} else {
+		cutImages(&crashPoint{Snap: s.snap, Synced: s.synced}, pairCutCap, nil, func(img *Snap, desc string) bool {
+			if desc != r.Cut {
+				return true
+			}
+			bad = judgeRaceSnap(r.Cfg, s, img, true, pre, post, &res)
+			return false
+		})
+	}
+	if bad != "" {
+		fmt.Printf("VIOLATION clause=crash-during-merge-race\n%s\ncrash point #%d (%s) %s\n%s\n", r.Text, r.Event, s.ev, r.Cut, bad)
+		os.Exit(1)
+	}
+	fmt.Println("no violation on this tree")
 }
